@@ -142,6 +142,9 @@ type circuitBreakerBase struct {
 	curProbeNumber uint64
 	// state is the state machine of circuit breaker
 	state *State
+	// opening counts the transitions to Open that are in flight: between the switch of the state and
+	// the update of nextRetryTimestampMs the deadline still belongs to an earlier round.
+	opening int32
 }
 
 func (b *circuitBreakerBase) BoundRule() *Rule {
@@ -153,6 +156,10 @@ func (b *circuitBreakerBase) CurrentState() State {
 }
 
 func (b *circuitBreakerBase) retryTimeoutArrived() bool {
+	if atomic.LoadInt32(&b.opening) != 0 {
+		// The circuit breaker is just being opened and its retry deadline is not in place yet.
+		return false
+	}
 	return util.CurrentTimeMillis() >= atomic.LoadUint64(&b.nextRetryTimestampMs)
 }
 
@@ -171,8 +178,10 @@ func (b *circuitBreakerBase) resetCurProbeNum() {
 // fromClosedToOpen updates circuit breaker state machine from closed to open.
 // Return true only if current goroutine successfully accomplished the transformation.
 func (b *circuitBreakerBase) fromClosedToOpen(snapshot interface{}) bool {
+	atomic.AddInt32(&b.opening, 1)
 	if b.state.cas(Closed, Open) {
 		b.updateNextRetryTimestamp()
+		atomic.AddInt32(&b.opening, -1)
 		for _, listener := range stateChangeListeners {
 			listener.OnTransformToOpen(Closed, *b.rule, snapshot)
 		}
@@ -180,6 +189,7 @@ func (b *circuitBreakerBase) fromClosedToOpen(snapshot interface{}) bool {
 		stateChangedCounter.Add(float64(1), b.BoundRule().Resource, "Closed", "Open")
 		return true
 	}
+	atomic.AddInt32(&b.opening, -1)
 	return false
 }
 
@@ -217,9 +227,11 @@ func (b *circuitBreakerBase) fromOpenToHalfOpen(ctx *base.EntryContext) bool {
 // fromHalfOpenToOpen updates circuit breaker state machine from half-open to open.
 // Return true only if current goroutine successfully accomplished the transformation.
 func (b *circuitBreakerBase) fromHalfOpenToOpen(snapshot interface{}) bool {
+	atomic.AddInt32(&b.opening, 1)
 	if b.state.cas(HalfOpen, Open) {
 		b.resetCurProbeNum()
 		b.updateNextRetryTimestamp()
+		atomic.AddInt32(&b.opening, -1)
 		for _, listener := range stateChangeListeners {
 			listener.OnTransformToOpen(HalfOpen, *b.rule, snapshot)
 		}
@@ -227,6 +239,7 @@ func (b *circuitBreakerBase) fromHalfOpenToOpen(snapshot interface{}) bool {
 		stateChangedCounter.Add(float64(1), b.BoundRule().Resource, "HalfOpen", "Open")
 		return true
 	}
+	atomic.AddInt32(&b.opening, -1)
 	return false
 }
 
